@@ -400,6 +400,24 @@ func c13Gen(rt *rapid.T) c13Prog {
 	for i := 0; i < n; i++ {
 		s := gInt(rt, 1, len(p.Sess)-1, "s")
 		switch {
+		case c13Maybe(rt, 3) && p.Sess[1] >= 0:
+			// a client stops reading while the topic it is attached to is busy: the server drops it
+			p.Ops = append(p.Ops, wOp{K: "sub", S: 1, T: "g0"}, wOp{K: "sub", S: s, T: "g0"}, wOp{K: "pause", S: s}, wOp{K: "flood", S: 1, T: "g0", N: 200}, wOp{K: "resume", S: s})
+		case c13Maybe(rt, 3) && p.Sess[s] >= 0 && p.Sess[s] <= 1:
+			// an account is deleted; somebody presents the token it was issued earlier
+			u := p.Sess[s]
+			p.Ops = append(p.Ops, wOp{K: "del", S: s, A: "user", U: u, F: c13Maybe(rt, 50)})
+			for k := 1; k < len(p.Sess); k++ {
+				if k != s {
+					p.Ops = append(p.Ops, wOp{K: "raw", S: k, A: `{"hi":{"id":"$id","ver":"0.22"}}`, B: "hi"},
+						wOp{K: "raw", S: k, A: fmt.Sprintf(`{"login":{"id":"$id","scheme":"token","secret":"$tok%d"}}`, u), B: "login"})
+					break
+				}
+			}
+		case c13Maybe(rt, 3) && p.Sess[s] == -2:
+			// a handshake which is refused, then the client carries on as if it had succeeded
+			p.Ops = append(p.Ops, wOp{K: "raw", S: s, A: fmt.Sprintf(`{"hi":{"id":"$id","ver":%q}}`, c13Pick(rt, []string{"0.15", "0.1", "abc", ""}, "badver")), B: "hi"},
+				wOp{K: "raw", S: s, A: c13Pick(rt, []string{`{"login":{"id":"$id","scheme":"token","secret":"$tok0"}}`, `{"acc":{"id":"$id","user":"new","scheme":"basic","secret":"$b64:newbie:secret12","login":true}}`, `{"login":{"id":"$id","scheme":"basic","secret":"$b64:alice:pw"}}`}, "afterbad"), B: "login"})
 		case c13Maybe(rt, 8):
 			p.Ops = append(p.Ops, wOp{K: "raw", S: s, A: c13Pick(rt, c13RawPool, "raw"), B: "raw"})
 		case c13Maybe(rt, 4):
@@ -460,6 +478,10 @@ type c13Obs struct {
 	deep     int
 	requests int
 	authed   map[int]bool // session slot -> was authenticated (server side) before the step
+	// hs: session slot -> the session has completed a handshake (a {hi} answered 2xx); modelled from the
+	// replies, initialised from the engine's own set-up of the connections
+	hs      map[int]bool
+	outOfSeq int
 }
 
 func (o *c13Obs) Before(w *wWorld, op *wOp) {
@@ -469,6 +491,15 @@ func (o *c13Obs) Before(w *wWorld, op *wOp) {
 		if ss != nil && !ss.isClosed() {
 			o.authed[slot] = !ss.s.uid.IsZero()
 		}
+	}
+	if o.hs == nil {
+		o.hs = map[int]bool{}
+		for slot, ss := range w.sess {
+			o.hs[slot] = ss != nil && ss.s.ver != 0
+		}
+	}
+	if op.K == "reconn" {
+		o.hs[op.S] = true // the engine's new connection says {hi} itself
 	}
 }
 
@@ -568,6 +599,21 @@ func (o *c13Obs) After(w *wWorld, st *wStep) *kit.Viol {
 	}
 	if !answered && !terminated {
 		return kit.V("unanswered:"+c13Shape(kind, st.Req), "request got no reply echoing its id %q at quiescence: %s (session user %d) frames=%s", id, st.Req, ss.user, wFramesStr(frames))
+	}
+	if kind == "hi" {
+		for _, c := range codes {
+			if c >= 200 && c < 300 {
+				o.hs[st.Sess] = true
+			}
+		}
+	} else if !o.hs[st.Sess] {
+		// out of sequence: nothing but {hi} is served before a handshake has succeeded (also after a refused one)
+		o.outOfSeq++
+		for _, c := range codes {
+			if c < 400 {
+				return kit.V("request-before-handshake-accepted:"+kind, "the session has not completed a handshake, yet %s was answered %d", st.Req, c)
+			}
+		}
 	}
 	if !o.authed[st.Sess] && kind != "hi" && kind != "acc" && kind != "login" {
 		for _, c := range codes {
